@@ -177,10 +177,26 @@ def naming_lemmas(run: Run):
     src = ast.unparse(fdef)
     run.table("files.naming:version-appended-iff-present", "if re.search(version, root_package):\n        pattern += version" in src, group="files.naming:package-pattern")
     run.table("files.naming:root-is-common-prefix", "root_package = os.path.commonprefix(tuple(proto_packages)).rstrip('.')" in src, group="files.naming:package-pattern")
-    # versioned_module_name
-    for cls, want in (("NewNaming", "return self.module_name + (f'_{self.version}' if self.version else '')"),):
-        f2, _ = find_def("gapic/schema/naming.py", f"{cls}.versioned_module_name")
-        run.table(f"files.naming:{cls}.versioned_module_name", want in ast.unparse(f2), detail=ast.unparse(f2)[-160:], group="files.naming:versioned-module-name")
+    # the directory names derived from the parsed package: `<name>_<version>` (`<name>` alone when unversioned; the old naming uses `.`), and the
+    # cumulative namespace packages - contracts on the real properties (they replaced an AST-text comparison that a harmless rewrite defeated)
+    N = "gapic/schema/naming.py"
+    m = SchemaModel()
+    m.add_class("NewNaming", {"module_name": "Str", "version": "Str"})
+    m.add_class("OldNaming", {"module_name": "Str", "version": "Str"})
+    m.classes["Naming"].update({"namespace": "Seq[Str]"})
+    cs = []
+    for cls, sep in (("NewNaming", "_"), ("OldNaming", ".")):
+        cs.append(Contract(f"{cls}.versioned_module_name", source=(N, f"{cls}.versioned_module_name"), params={"self": cls}, result="Str",
+                           ensures=[f"result == (self.module_name + '{sep}' + self.version if self.version != '' else self.module_name)"]))
+    step = "(self.namespace[i].lower() if i == 0 else {a}[i - 1] + '.' + self.namespace[i].lower())"
+    cs.append(Contract("Naming.namespace_packages", source=(N, "Naming.namespace_packages"), params={"self": "Naming"}, result="Seq[Str]",
+                       locals={"answer": "Seq[Str]"},
+                       ensures=["len(result) == len(self.namespace)", "forall(lambda i: result[i] == " + step.format(a="result") + ", 0, len(self.namespace))"],
+                       invariants={"for#1": ["len(answer) == _k", "forall(lambda i: answer[i] == " + step.format(a="answer") + ", 0, _k)"]}))
+    for c in cs:
+        m.add_contract(c)
+    for c in cs:
+        run.verify(m, c)
 
 
 def render_safety(run: Run):
